@@ -91,7 +91,7 @@ def keys_is_instance(trial_dict, *classes):
     return all(isinstance(i, classes) for i in trial_dict.keys())
 
 
-def items_contain(trial_dict, **items):
+def items_contain(trial_dict, /, **items):
     for k, v in items.items():
         try:
             if trial_dict[k] != v:
